@@ -16,7 +16,9 @@ Ops == {"quantise", "quantise_note_lengths", "normalise", "quantise_and_normalis
         "bar_construct", "bars_roundtrip", "bars_roundtrip_requantise", "composition_roundtrip", "token_roundtrip",
         "save_load", "quantise_helper_grid", "note_lengths_helper_grid", "token_roundtrip_plain",
         "token_roundtrip_plain_ppqn48", "token_roundtrip_unfused_tail", "scale_identity",
-        "load_coarse_file"}
+        "load_coarse_file", "bars_edit_rejoin"}
+(* bars_edit_rejoin: the bars of a piece are edited in place so that they end before their bar line (cutoff with integer
+   arguments shortens a note that reaches the bar line) and are then laid end to end again *)
 (* token_roundtrip_plain_ppqn48: a tokeniser built with an explicit integer resolution other than the library's and the
    default grids; token_roundtrip_unfused_tail: unfused running values, bar-by-bar calls with a carried state, only the
    tokens of the later calls are detokenised (the stream then starts without value / velocity / track tokens) *)
@@ -24,7 +26,7 @@ Ops == {"quantise", "quantise_note_lengths", "normalise", "quantise_and_normalis
    (get_default_step_sizes, get_note_durations, get_tuplet_durations, get_dotted_note_durations) with integer arguments
    other than the defaults *)
 (* operations that build bars pad short sequences to the bar length *)
-BarBuilding == {"bar_construct", "bars_roundtrip", "bars_roundtrip_requantise", "composition_roundtrip", "token_roundtrip",
+BarBuilding == {"bars_edit_rejoin", "bar_construct", "bars_roundtrip", "bars_roundtrip_requantise", "composition_roundtrip", "token_roundtrip",
                 "token_roundtrip_unfused_tail"}
 Tokenising == {"token_roundtrip", "token_roundtrip_plain", "token_roundtrip_plain_ppqn48", "token_roundtrip_unfused_tail"}
 
